@@ -177,8 +177,64 @@ def rand_strategy(tier):
     return s()
 
 
+def ens_strategy(tier):
+    from .. import gen
+
+    @st.composite
+    def s(draw):
+        spec = draw(gen.dataset(max_inputs=1, clim=False, flavor="ens", core_max=2, extra_max=0, allow_drop=False, max_members=4,
+                                allow_obsless=False, allow_all_missing=False))
+        members = sorted(set(v for pl in spec["inputs"][0]["ens"] for row in pl for cell in row for v in cell if v is not None)) or [0.0]
+        T = sorted(draw(st.lists(st.sampled_from(members + [members[0] - 1, members[-1] + 1, 0.125]), min_size=2, max_size=2, unique=True)))
+        return {"spec": spec, "bin_type": draw(st.sampled_from(model.BIN_TYPES)), "thresholds": T}
+    return s()
+
+
+def check_ens(case, ctx):
+    """Event probability derived from ensemble members: P(X<=upper) - P(X<=lower) with P(X<=t) the fraction of
+    NON-MISSING members at or below t (a missing member belongs to no event); missing when no member is present."""
+    import numpy as np
+    import verif.axis
+    import verif.metric
+    import verif.util
+    from .. import mat
+    if "spec" not in case:
+        return check_case(case, ctx)
+    spec = case["spec"]
+    b, T = case["bin_type"], case["thresholds"]
+    d = spec["inputs"][0]
+    data = mat.make_data(spec)
+    evs = model.events(b, T)
+    intervals = verif.util.get_intervals(b, np.array(T))
+    ds = model.DS(spec)
+    ctx.label("ens/bin=" + b)
+    for (t0, t1), iv in zip(evs, intervals):
+        try:
+            obsP, p = verif.metric.get_p(data, 0, verif.axis.No(), 0, iv)
+        except (Exception, SystemExit) as e:
+            ctx.fail("C07/agree/ensemble-prob/exception", case, "%s: %s" % (type(e).__name__, e))
+            return
+        F = [("obs",), ("thr", t0)] + ([("thr", t1)] if t1 is not None else [])
+        cs = ds.cases(F, 0)
+        exp = sorted((1.0 if model.in_event(b, c[0], t0, t1) else 0.0, model.event_prob(b, c[1], c[2] if t1 is not None else None)) for c in cs)
+        got = sorted(zip(np.asarray(obsP, float).ravel().tolist(), np.asarray(p, float).ravel().tolist()))
+        got = [g for g in got if not (g[0] != g[0] and g[1] != g[1])]
+        ctx.evals += 1
+        if any(any(v is None for v in cell) and any(v is not None for v in cell) for pl in d["ens"] for row in pl for cell in row):
+            ctx.nt((d["ens"], b, T))
+            ctx.label("ens/partially-missing-members")
+        if len(got) != len(exp) or not all(cmpx_close(a[0], e[0]) and cmpx_close(a[1], e[1], 2e-6) for a, e in zip(got, exp)):
+            ctx.fail("C07/agree/ensemble-prob", case, "event %s(%r,%r): (event observed, probability) pairs %r; from the non-missing members %r" % (b, t0, t1, got[:6], exp[:6]))
+
+
+def cmpx_close(a, b, tol=1e-9):
+    from .. import cmpx
+    return cmpx.close(a, b, tol)
+
+
 def campaigns(tier):
     return [
         Enum("relations", items, check_case, "8 bin types x 19 threshold lists x complete relation set"),
         Hyp("random", rand_strategy, check_case, quick=1600, thorough=40000),
+        Hyp("ensemble-prob", ens_strategy, check_ens, quick=800, thorough=20000),
     ]
